@@ -312,7 +312,7 @@ macro_rules! targets {
 }
 
 targets! {
-    "C01":"parsers" => c01::Parsers, "C01":"stack" => c01::Stack, "C01":"outstation_script" => c01::OutstationScript,
+    "C01":"parsers" => c01::Parsers, "C01":"stack" => c01::Stack, "C01":"outstation_script" => c01::OutstationScript, "C01":"master_script" => c01m::MasterScript,
     "C02":"converge" => c02::Converge,
     "C03":"ledger" => c03::Ledger,
     "C04":"sbo" => c04::Sbo,
